@@ -343,6 +343,32 @@ fn job_workload(master: u64, job: u64, tier: Tier) -> Vec<u8> {
         // expanded form hundreds of times larger than the file
         return workload::gen_high_ratio_file(&mut rng, rng_len(job, 60_000, 900_000));
     }
+    if job % 16 == 13 {
+        // expanded sizes at the boundaries of the zstd frame header (content size field of 1, 2,
+        // 4 bytes; the 2 byte form is biased by 256; single-segment frames end at the window size)
+        const SIZES: [usize; 12] = [255, 256, 257, 511, 512, 65791, 65792, 65793, 131071, 131072, 131073, 1 << 20];
+        let k = (job / 16) as usize;
+        let mut e = SIZES[k % SIZES.len()];
+        if tier == Tier::Thorough {
+            const BIG: [usize; 8] = [(4 << 20) - 1, 4 << 20, (4 << 20) + 1, (8 << 20) + 1, (16 << 20) + 1000, (16 << 20) - 1, (32 << 20) + 100_000, 16 << 20];
+            if k % 3 == 2 {
+                e = BIG[(k / 3) % BIG.len()];
+            }
+        }
+        return workload::gen_file_with_expanded_size(e);
+    }
+    if job % 16 == 15 {
+        // the file is itself a zstd frame: the library's own output (a directory processed twice) or a foreign .zst
+        let inner = workload::gen_file(&mut rng, workload::SMALL).file;
+        return if rng.chance(1, 2) {
+            match std::panic::catch_unwind(|| preflate_rs::compress_zstd(&inner, 0)) {
+                Ok(Ok(b)) => b,
+                _ => zstd::bulk::compress(&inner, 3).unwrap_or(inner),
+            }
+        } else {
+            zstd::bulk::compress(&inner, rng.range(1, 12) as i32).unwrap_or(inner)
+        };
+    }
     if job % 16 == 11 {
         // the file is larger than its expanded form (budget >= expanded size must still suffice)
         return workload::gen_file_larger_than_expanded(&mut rng);
